@@ -20,7 +20,7 @@ from model.plotfile import Ref
 from symx import core, patch
 from symx.fs import SymFS
 
-SPECIES = ['H2', 'O2']
+SPECIES = ['H2', 'CH2(S)']        # a name with parentheses of its own (GRI-Mech singlet methylene)
 
 
 def expected(chk, gradp, reactions, floor):
@@ -83,7 +83,7 @@ def run_conv(mods, chk, opts, ctx, canary=False, history=False, cli=False):
     fs = SymFS()
     chk.write_symfs(fs, '/work/run/chk00005')
     if source == 'plotfile':
-        Ref('t', 3, ['temp', 'Y(H2)', 'density', 'Y(O2)'], (1, 1, 1), [[((0, 0, 0), (0, 0, 0))]]).write_symfs(fs, '/work/run/plt_ref')
+        Ref('t', 3, ['temp', 'Y(%s)' % SPECIES[0], 'density', 'Y(%s)' % SPECIES[1]], (1, 1, 1), [[((0, 0, 0), (0, 0, 0))]]).write_symfs(fs, '/work/run/plt_ref')
     fs.audit.clear()
     obl = Obl(ctx)
     # the flooring divides by the sum of the mass fractions
@@ -250,7 +250,7 @@ def run_case(case):
             inputs['other/chk00009'] = (fs, '/work/other/chk00009')
         kw = "species=%r" % (SPECIES,)
         if source == 'plotfile':
-            Ref('t', 3, ['temp', 'Y(H2)', 'density', 'Y(O2)'], (1, 1, 1), [[((0, 0, 0), (0, 0, 0))]]).write_symfs(fs, '/work/run/plt_ref')
+            Ref('t', 3, ['temp', 'Y(%s)' % SPECIES[0], 'density', 'Y(%s)' % SPECIES[1]], (1, 1, 1), [[((0, 0, 0), (0, 0, 0))]]).write_symfs(fs, '/work/run/plt_ref')
             inputs['run/plt_ref'] = (fs, '/work/run/plt_ref')
             kw = "target_plotfile='run/plt_ref'"
         run = ("from amr_kitchen.chk2plt.chk2plt import chk2plt\nimport contextlib, io, hashlib\n"
